@@ -212,3 +212,9 @@ def fault(f: int, cause: int, slot: int, fs: int, rp: bool) -> bool:
     except Exception:  # noqa: BLE001
         ok = False
     return fin(M, ok, f=f, cause=cause, slot=slot, fs=fs, rp=rp)
+
+
+def probe():
+    st = pj.gen_stream(1, pj.make_options(1))
+    snapshot(st)
+    st.flow.to_stream_frame, st.repeated_terms  # noqa: B018
